@@ -817,8 +817,10 @@ def simplify_clauses(p, eps, closed, out, m):
             if perp2_exact(out[i], out[i - 1], out[(i + 1) % n]) <= e2 * slack and e2 > 0:
                 bad.append('retained-vertex-within-epsilon')
                 break
-            if e2 == 0 and cross3(out[i - 1], out[i], out[(i + 1) % n]) == 0 and out[i - 1] != out[(i + 1) % n] and False:
-                pass
+            if cross3(out[i - 1], out[i], out[(i + 1) % n]) == 0 and out[i - 1] != out[(i + 1) % n]:
+                # distance exactly 0 (computed exactly in floating point too): within every epsilon >= 0
+                bad.append('retained-vertex-exactly-on-the-line-through-its-retained-neighbours')
+                break
     if eps == 0 and closed and shoelace2([out]) != shoelace2([p]):
         bad.append('area-changed-at-epsilon-0')
     if m.get('retained') is not None:
@@ -854,6 +856,13 @@ def run_c16(ctx):
             got = None if t[0] == 'NONE' else [[t[1 + 2 * i], t[2 + 2 * i]] for i in range(int(t[0]))]
             if got != want:
                 mismatches.append({'case': 'SimplifyPathD', 'eps': m['eps'], 'closed': m['closed'], 'go': want, 'model': got})
+            # the property's clauses on the float result, in units of 1/8 (the inputs are exact multiples of 1/8)
+            if m.get('path8') is not None:
+                go8 = [[int(F(a) * 8), int(F(b) * 8)] for a, b in want]
+                for cl in simplify_clauses(m['path8'], m['eps'] * 8, m['closed'], go8, {}):
+                    e = {'pathD_times_8': m['path8'], 'eps_times_8': m['eps'] * 8, 'closed': m['closed']}
+                    viol.append({'key': fw.input_key(e), 'kind': 'D:' + cl, 'text': 'SimplifyPathD(path/8 of %s, eps=%s, closed=%s) = (1/8)*%s: %s' % (str(m['path8'])[:300], m['eps'], m['closed'], str(go8)[:200], cl),
+                                 'detail': {'corpus_entry': e, 'go_times_8': go8, 'model': got}})
             continue
         p, eps, closed, go = m['path'], m['eps'], m['closed'], m['go']
         model = None if t[0] == 'NONE' else [[int(t[1 + 2 * i]), int(t[2 + 2 * i])] for i in range(int(t[0]))]
